@@ -162,13 +162,18 @@ func RTClean(proto byte, t *Ty, gt *GT, v *Val) bool {
 	return true
 }
 
-// RTCleanAny extends RTClean to lists / sets (bound as slices or arrays) and maps with clean leaves, nested to
-// any depth (tuples and UDTs are compared model-vs-code only): the property's oracle `rtsame` does not depend on
-// the model, so it is applied there too; the theorems cover the scalar leaves (see props/C02.json `partial`).
+// RTCleanAny extends RTClean to lists / sets (bound as slices or arrays), maps, tuples and UDTs with clean leaves,
+// nested to any depth: the property's oracle `rtsame` does not depend on the model, so it is applied there too.
+// Tuples: a struct / slice / array target is filled by `Set` from a value of goType(elem), so the claim is made for
+// fields of exactly that type or a pointer to it (null <-> nil pointer, empty <-> pointer to the empty value), and
+// for []interface{} / [n]interface{} holding values of goType(elem) (a null would come back as the zero value: not
+// claimed).  UDTs: a struct with cql tags whose fields are any round-trip type (pointer fields: null <-> nil), and
+// map[string]interface{} holding a goType(elem) value for every field.
 func RTCleanAny(proto byte, t *Ty, gt *GT, v *Val) bool {
 	if gt == nil {
 		return false
 	}
+	v = v.Plain()
 	if gt.Name == "ptr" {
 		switch v.Tag {
 		case "nilptr":
@@ -214,7 +219,72 @@ func RTCleanAny(proto byte, t *Ty, gt *GT, v *Val) bool {
 			}
 		}
 		return true
-	case "tuple", "udt":
+	case "tuple":
+		field := func(et *Ty, f *GT, e *Val) bool {
+			g0 := GoTypeOf(et)
+			switch {
+			case f.Name == "iface":
+				return sameGT(TypeOfVal(e), g0) && RTCleanAny(proto, et, g0, e)
+			case sameGT(f, g0):
+				return g0.Name != "ptr" && RTCleanAny(proto, et, g0, e)
+			case f.Name == "ptr" && sameGT(f.Elems[0], g0):
+				return e.Tag == "nilptr" || (e.Tag == "ptr" && !marshalsNil(deref(e)) && RTCleanAny(proto, et, g0, e.Elems[0]))
+			}
+			return false
+		}
+		switch {
+		case gt.Name == "struct" && v.Tag == "st":
+			if len(gt.Elems) != len(t.Elems) || len(v.Elems) != len(t.Elems) {
+				return false
+			}
+			for i, e := range v.Elems {
+				if !field(t.Elems[i], gt.Elems[i], e) {
+					return false
+				}
+			}
+			return true
+		case (gt.Name == "slice" && (v.Tag == "sl" || v.Tag == "ifs")) || (gt.Name == "array" && v.Tag == "arr" && gt.N == len(t.Elems)):
+			if len(v.Elems) != len(t.Elems) {
+				return false
+			}
+			for i, e := range v.Elems {
+				if !field(t.Elems[i], gt.Elems[0], e) {
+					return false
+				}
+			}
+			return true
+		}
+		return false
+	case "udt":
+		switch {
+		case gt.Name == "ustruct" && v.Tag == "us":
+			if len(v.Names) != len(gt.Names) || len(t.Elems) == 0 {
+				return false
+			}
+			seen := map[string]bool{}
+			for i, nm := range v.Names {
+				j := lookup(nm, t.Names)
+				if nm != gt.Names[i] || j < 0 || seen[nm] {
+					return false
+				}
+				seen[nm] = true
+				if !RTCleanAny(proto, t.Elems[j], gt.Elems[i], v.Elems[i]) {
+					return false
+				}
+			}
+			return true
+		case gt.Name == "umap" && v.Tag == "um":
+			if len(v.Names) != len(t.Names) {
+				return false
+			}
+			for i, nm := range v.Names {
+				g0 := GoTypeOf(t.Elems[i])
+				if nm != t.Names[i] || !sameGT(TypeOfVal(v.Elems[i]), g0) || !RTCleanAny(proto, t.Elems[i], g0, v.Elems[i]) {
+					return false
+				}
+			}
+			return true
+		}
 		return false
 	}
 	return RTClean(proto, t, gt, v)
